@@ -302,6 +302,21 @@ def run(ctx: Any, prog: Program) -> None:
     if len(refill) != 1:
         raise AnalysisError('_next_char: expected one refill loop over self._chunk_iter')
     cv = refill[0].target.id
+    # the cursor and the chunk it indexes change together: wherever the refill loop resets `_char_index`, the same run of statements stores the
+    # new chunk before anything can leave it (a reset in front of the empty-chunk `continue` rewinds the cursor into the chunk that was already
+    # consumed - if no further chunk follows, that chunk is tokenised a second time)
+    for rs in [a for a in ast.walk(refill[0]) if isinstance(a, ast.Assign) and any(dotted(t) == 'self._char_index' for t in a.targets)]:
+        par_ = tk.parents.get(rs)
+        blk_ = next((getattr(par_, f_) for f_ in ('body', 'orelse', 'finalbody') if isinstance(getattr(par_, f_, None), list) and rs in getattr(par_, f_)), None)
+        ok_ = False
+        if blk_ is not None:
+            stores = [i for i, st in enumerate(blk_) if isinstance(st, ast.Assign) and any(dotted(t) == 'self._cur_chunk' for t in st.targets)]
+            if stores:
+                lo, hi = sorted((blk_.index(rs), stores[0]))
+                between = blk_[lo + 1:hi]
+                ok_ = not any(isinstance(x, (ast.Continue, ast.Break, ast.Return, ast.Raise)) for st in between for x in ast.walk(st))
+        ctx.check('C03.K1', ok_, tk, rs, f'_next_char resets the cursor (`{U(rs)}`) on a path that can leave the loop body without storing the new chunk: the index then points into the chunk that was already consumed, '
+                  'and when the input ends on empty chunks that text is tokenised again', text='_next_char: cursor reset together with the chunk')
     for n in ast.walk(refill[0]):
         if isinstance(n, (ast.Assign, ast.AugAssign, ast.AnnAssign)):
             tg = n.targets if isinstance(n, ast.Assign) else [n.target]
@@ -607,6 +622,26 @@ def run(ctx: Any, prog: Program) -> None:
             tok_vars = {t.id for a in ast.walk(parse) if isinstance(a, ast.Assign) and any(c is a.value or c in ast.walk(a.value) for c in tcalls) for t in a.targets if isinstance(t, ast.Name)} | {'tokenizer'}
             ok = isinstance(n.exc, ast.Call) and (dotted(n.exc.func) == 'KeyValError' or (isinstance(n.exc.func, ast.Attribute) and n.exc.func.attr == 'error' and dotted(n.exc.func.value) in tok_vars))
             ctx.check('C03.K5', ok, kv, n, 'Keyvalues.parse may raise only tokenizer.error(...) or KeyValError(...)')
+    # implicit IndexError in the module-level helpers parse() calls (`_read_flag`): a constant index into a string parameter needs that string to be
+    # non-empty - the input decides (`[]` is a legal, empty flag) - so it sits behind a truth/length test of the parameter or inside
+    # `try ... except IndexError`; a slice (`x[:1]`) is always safe
+    helper_names = {c.func.id for c in ast.walk(parse) if isinstance(c, ast.Call) and isinstance(c.func, ast.Name) and kv.has_func(c.func.id) and '.' not in c.func.id}
+    for hn in sorted(helper_names):
+        hf = kv.func(hn)
+        hparams = {a.arg for a in hf.args.args}
+        for sub_ in walk_no_nested(hf):
+            if not (isinstance(sub_, ast.Subscript) and isinstance(sub_.ctx, ast.Load) and isinstance(sub_.value, ast.Name) and sub_.value.id in hparams and isinstance(sub_.slice, ast.Constant) and isinstance(sub_.slice.value, int)):
+                continue
+            guarded = False
+            ch_, an_ = sub_, kv.parents.get(sub_)
+            while an_ is not None and an_ is not hf:
+                if isinstance(an_, ast.Try) and any(ch_ is b or any(ch_ is x for x in ast.walk(b)) for b in an_.body) and any(dotted(h.type) in ('IndexError', 'LookupError', 'Exception') for h in an_.handlers):
+                    guarded = True
+                if isinstance(an_, (ast.If, ast.IfExp, ast.BoolOp)) and any(isinstance(x, ast.Name) and x.id == sub_.value.id for x in ast.walk(an_.test if not isinstance(an_, ast.BoolOp) else an_.values[0])) and ch_ is not getattr(an_, 'test', None):
+                    guarded = True
+                ch_, an_ = an_, kv.parents.get(an_)
+            ctx.check('C03.K5', guarded, kv, sub_, f'{hn}() reads `{U(sub_)}` without knowing that `{sub_.value.id}` is non-empty: for an empty string (an empty flag `[]` is legal input) this raises IndexError, '
+                      'which is not the KeyValError parse() promises for every input', func=hn, text=f'{hn}: `{U(sub_)}` guarded')
     # implicit ValueError: BaseTokenizer.push_back raises ValueError (not the syntax error type) when it is given a value-carrying token
     # without its value.  A token that parse() took from the tokenizer may be any token (the input decides), so it goes back together with
     # the value it came with; the one-argument form is fine for a literal operator token only.
@@ -757,6 +792,8 @@ def _guarded_by_nonstr(mod: Any, n: ast.AST) -> bool:
 
 
 MUTANTS = [
+    {'id': 'read_flag_indexes_empty_string', 'file': 'keyvalues.py', 'find': "    flag_inv = flag_val[:1] == '!'", 'replace': "    flag_inv = flag_val[0] == '!'", 'expect': 'C03.K5'},
+    {'id': 'cursor_reset_before_empty_chunk_skip', 'file': 'tokenizer.py', 'find': "                    if chunk:\n                        self._cur_chunk = chunk\n                        self._char_index = 0\n                        return chunk[0]\n", 'replace': "                    self._char_index = 0\n                    if not chunk:\n                        continue\n                    self._cur_chunk = chunk\n                    return chunk[0]\n", 'expect': 'C03.K1'},
     {'id': 'push_back_without_value', 'file': 'keyvalues.py', 'find': "                    tokenizer.push_back(prop_type, prop_value)", 'replace': "                    tokenizer.push_back(prop_type)", 'expect': 'C03.K5'},
     {'id': 'skipped_block_without_line_num', 'file': 'keyvalues.py', 'find': "                    cur_block.line_num = None  # Not used, but make sure to keep it valid.\n", 'replace': "", 'expect': 'C03.K5'},
     {'id': 'init_collapses_crlf_for_str_only', 'file': 'tokenizer.py', 'find': "        if isinstance(data, str):\n            self._cur_chunk = data\n", 'replace': "        if isinstance(data, str):\n            self._cur_chunk = data.replace('\\r\\n', '\\n')\n", 'expect': 'C03.K1'},
